@@ -272,6 +272,10 @@ def canon_guard(g):
             return b + g[len("not " + a):]
     if g.startswith("not not(") and g.endswith(")"):
         return g[8:-1]
+    if g.startswith("not none(") and g.count("(") == g.count(")") and ";" not in g:
+        return "any(" + g[9:]
+    if g.startswith("not any(") and g.count("(") == g.count(")") and ";" not in g:
+        return "none(" + g[8:]
     return g
 
 
